@@ -236,7 +236,7 @@ def run_shard(sh, rec):
 
 
 def explore(tier, seed):
-    return core.pmap(run_shard, ["conv"] + s1.configs(tier) + s1.long_configs(tier) + s1.bign_configs(tier), seed, progress="C12")
+    return core.pmap(run_shard, ["conv"] + s1.configs(tier) + s1.long_configs(tier) + s1.bign_configs(tier) + s1.vlong_configs(tier), seed, progress="C12")
 
 
 def run_case(case):
